@@ -257,3 +257,46 @@ func VerifC15_Step(n int) {
 	}
 	verifAssert("the parent's holder is untouched", IdPlaceholder(parent) == stale)
 }
+
+// VerifC15_Concurrent: after an optional request that is rejected at message
+// level, two requests are processed at the same time on two connections; their
+// handlers interleave (scheduling point between every read and write of the
+// placeholder): each request only ever observes its own values.
+func VerifC15_Concurrent(rejectedFirst int) {
+	exec := NewBatchExecutor()
+	seen := map[string]string{}
+	exec.Route(kmip.OperationActivate, handlerFunc(func(ctx context.Context, req kmip.OperationPayload) (kmip.OperationPayload, error) {
+		label := req.(*payloads.ActivateRequestPayload).UniqueIdentifier
+		verifYield()
+		seen[label] = IdPlaceholder(ctx)
+		verifYield()
+		SetIdPlaceholder(ctx, "id-"+label[:1])
+		verifYield()
+		return &payloads.ActivateResponsePayload{UniqueIdentifier: label}, nil
+	}))
+	if rejectedFirst == 1 {
+		bad := c19Request("x")
+		bad.Header.ProtocolVersion = kmip.ProtocolVersion{ProtocolVersionMajor: 9, ProtocolVersionMinor: 9}
+		exec.HandleRequest(newConnContext(context.Background(), "peer0", nil), bad)
+	}
+	mk := func(p string) *kmip.RequestMessage {
+		r := c19Request(p + "1")
+		r.BatchItem = append(r.BatchItem, kmip.RequestBatchItem{Operation: kmip.OperationActivate, RequestPayload: &payloads.ActivateRequestPayload{UniqueIdentifier: p + "2"}})
+		r.Header.BatchCount = 2
+		return r
+	}
+	doneA, doneB := false, false
+	go func() {
+		exec.HandleRequest(newConnContext(context.Background(), "peerA", nil), mk("a"))
+		doneA = true
+	}()
+	go func() {
+		exec.HandleRequest(newConnContext(context.Background(), "peerB", nil), mk("b"))
+		doneB = true
+	}()
+	verifBlock(func() bool { return doneA && doneB })
+	verifAssert("A: empty at the start", seen["a1"] == "")
+	verifAssert("B: empty at the start", seen["b1"] == "")
+	verifAssert("A: second item sees A's value", seen["a2"] == "id-a")
+	verifAssert("B: second item sees B's value", seen["b2"] == "id-b")
+}
